@@ -37,6 +37,31 @@ CLAIMED = {
 NOT_APPLICABLE = {}
 
 
+_CORR = "differential correspondence of the hand-written model + direct exact oracles of the statement"
+TIES = {
+    "C04": "tie: translator (page-release arithmetic and constructor regenerated from _memory.py: Gen/GMem.v, "
+           "Proofs/GenTieMem.v) for the release clause; " + _CORR + " for the representation clause",
+    "C05": "tie: translator (round file names, globs: Gen/GMr.v, Proofs/GenTieMr.v); " + _CORR,
+    "C06": "tie: translator (batch plan, task labels, file names: Gen/GMr.v, Proofs/GenTieMr.v); " + _CORR
+           + " under controlled task orders, real pools and hash seeds",
+    "C09": "tie: translator (round file names and globs: Gen/GMr.v); " + _CORR,
+    "C10": "tie: translator (all six criteria and the tolerance constructor regenerated from _merges.py, statistics "
+           "from similarity.py: Gen/GMerges.v, Gen/GSim.v, Proofs/GenTieMerges.v); " + _CORR,
+    "C11": "tie: translator (iSIM / radius / diameter kernels regenerated: Gen/GSim.v, Proofs/GenTieSim.v); " + _CORR,
+    "C12": "tie: translator (centroid kernel: Gen/GSim.v); " + _CORR + ", bit-exact floats",
+    "C13": "tie: the C++ source is compiled unmodified on every run and compared with the loop-level model "
+           "Model/Cpp.v and with the Python fallback bit for bit",
+    "C14": "tie: translator (purge / cleanup / publication plan extracted from run_multiround_bitbirch: Gen/GMrDel.v, "
+           "Proofs/GenTieMrDel.v); " + _CORR + " at every crash point and for failures inside workers",
+    "C15": "tie: translator (option normalisation translated, plan of estimator calls extracted statement by statement "
+           "from cli._run: Gen/GCli.v, Proofs/GenTieCli.v); " + _CORR + " (CLI vs API)",
+    "C16": "tie: translator (parse_num_per_batch, split plan: Gen/GUtil.v, Proofs/GenTieUtil.v); " + _CORR
+           + " (real worker calls on shared memory / directories in arbitrary order)",
+    "C20": "tie: translator (update condition of the monitor: Gen/GMon.v); " + _CORR
+           + " with the real monitor stopped before every file operation",
+}
+
+
 def main():
     import sys
     sys.path.insert(0, "/verif/harness")
@@ -53,7 +78,8 @@ def main():
             "engine": "coq-proof+correspondence",
             "level_claimed": {"category": "proof", "text": CLAIMED[p] + TIE, "design_ref": f"DESIGN.md §6 {p}"},
             "level_note": NOTE,
-            "technique": TECH,
+            "technique": TECH + "; " + TIES.get(p, "tie: hand-written model, differential correspondence after every "
+                                                "operation + direct exact oracles of the statement"),
         })
     allp = [f"C{i:02d}" for i in range(1, 21)]
     na = [{"property_id": p, "reason": NOT_APPLICABLE.get(p, "not built yet (model/proofs in progress; see DESIGN.md)")}
